@@ -772,7 +772,7 @@ class Exec:
         if k == 'construct':
             args = [self._rvalue(a, st, fr) for a in n.ns('args') if a is not None]
             r = self.dom.ext_call(self, n, st, fr)
-            if r is not None and not (isinstance(r, Unknown) and r.tag.startswith('call:')): return r
+            if r is not None and not (isinstance(r, Unknown) and str(r.tag).startswith('call:')): return r
             if (d.get('copy') or d.get('move')) and args: return args[0]
             return r if r is not None else Unknown('construct:' + d['class'])
         if k == 'initlist':
